@@ -82,6 +82,7 @@ CHECKS = {
          "exploration; sampled: 200k (thorough 4M) packets of every type with one 1/2/4/5-octet field set to 2^16..2^32-1 and the data cut, kept or replaced by up to 70000 filler bytes under accurate / five-octet / legacy four-octet / partial framings declaring up to 2^32-1, through PacketParser, key, signature and message readers; exhaustively enumerated: every (quick: every second) body offset x 4 field widths x 3 tails of ~70 small packets covering all packet types and key versions; 26 doubling families x n = 2^6..2^12 (thorough 2^16): markers, paddings, signatures, one-pass headers, user ids, subkeys, subpackets, user attributes, armor lines/headers/garbage, cleartext lines, nested compression, partial chunks; 14 message configurations at 1 MiB vs 16 MiB (thorough 4 vs 256 MiB); SEIPDv1 CheckFirst limits x 5 size ratios; Argon2 all 65536 (t,p) x 21 (thorough 256) m octets; iterated S2K 256 counts x password lengths 0..1 MiB",
          "time is not measured (no wall-clock oracle): linear work is decided on allocation volume and allocation count only, so a non-allocating quadratic scan would escape; constants (192 KiB + 8 x supplied; 6 MiB where a decompressor runs) are upper bounds chosen above everything observed on the unchanged tree, so inflation below ~200 KiB is not distinguished"),
 }
+FUZZ_IDS = {"C04", "C05", "C10", "C14", "C16", "C17"}
 NOT_BUILT_REASON = "check not built yet in this round (work in progress; property-based testing applies, see DESIGN.md §4)"
 ALL = ["C%02d" % i for i in range(1, 20)]
 
@@ -90,6 +91,8 @@ def main():
     for pid in ALL:
         if pid not in CHECKS: continue
         ref, tech, text, note = CHECKS[pid]
+        if pid in FUZZ_IDS:
+            tech += "; thorough tier additionally drives every random group of this check with libFuzzer (cargo-fuzz target harness/fuzz vfuzz: the fuzzer's bytes are the tape of the same case function, so generators and oracle are unchanged and coverage feedback over rPGP guides the search), saved inputs are re-judged through the replay path"
         checks.append({
             "property_id": pid,
             "quick_cmd": f"./check {pid} quick",
@@ -115,7 +118,7 @@ def main():
             "name": "vcheck",
             "path": "/verif/harness",
             "serves_properties": sorted(CHECKS),
-            "kind_free_text": "Rust harness crate (path dependency on /repo): seeded tape-decoded structured generators + exhaustive small-scope enumerators, explicit oracles built on independent reference code, deterministic parallel runner, tape shrinker, replay files; libFuzzer targets reuse the same case functions",
+            "kind_free_text": "Rust harness crate (path dependency on /repo): seeded tape-decoded structured generators + exhaustive small-scope enumerators, explicit oracles built on independent reference code, deterministic parallel runner, tape shrinker, replay files; a libFuzzer target (harness/fuzz, cargo-fuzz) reuses the same case functions for coverage-guided slices in the thorough tier of C04, C05, C10, C14, C16, C17",
         }],
         "checks": checks,
         "not_applicable": [{"property_id": p, "reason": NOT_BUILT_REASON} for p in ALL if p not in CHECKS],
